@@ -46,6 +46,78 @@ def _strip(s: str) -> str:
     return body + suffix
 
 
+def fold_target(c):
+    # ---- the two passes of a repeated wall-clock hour (end of DST): equal as Python values (== and hash ignore `fold`
+    # for datetimes sharing a tzinfo), one hour apart as instants - in one message, in both orders
+    def fold_cases():
+        try:
+            from zoneinfo import ZoneInfo
+
+            zones = [ZoneInfo(z) for z in ("Europe/Berlin", "America/New_York", "Australia/Lord_Howe", "America/St_Johns")]
+        except Exception:  # noqa: BLE001 - no tz database: nothing to enumerate
+            zones = []
+        for zi, z in enumerate(zones):
+            for year in (1996, 2021, 2033):
+                # find the fall-back transition of that year: scan days for an hour whose fold=1 twin has another offset
+                d = datetime(year, 1, 1, 0, 30, tzinfo=z)
+                for _ in range(366 * 48):
+                    d1 = d.replace(fold=1)
+                    if d1.utcoffset() != d.utcoffset():
+                        for usec in (0, 1, 999_999):
+                            for order in (0, 1):
+                                yield {"zone": zi, "wall": [d.year, d.month, d.day, d.hour, d.minute, 7, usec], "order": order}
+                        break
+                    d = (d.replace(tzinfo=None) + timedelta(minutes=30)).replace(tzinfo=z)
+
+    def fold_ev(case):
+        from zoneinfo import ZoneInfo
+
+        z = [ZoneInfo(n) for n in ("Europe/Berlin", "America/New_York", "Australia/Lord_Howe", "America/St_Johns")][case["zone"]]
+        w = datetime(*case["wall"], tzinfo=z)
+        pair = [w.replace(fold=0), w.replace(fold=1)]
+        if case["order"]:
+            pair.reverse()
+        want = []
+        for d in pair:
+            off = d.utcoffset()
+            naive_us = (d.replace(tzinfo=None) - datetime(1970, 1, 1)) // timedelta(microseconds=1)
+            want.append(naive_us - off // timedelta(microseconds=1))
+        T = c.bp("Times")
+        fails = []
+        try:
+            m = guard("build", lambda: T(r_ts=list(pair), ts=pair[1], m_ts={1: pair[0], 2: pair[1]}, o_ts=pair[0]))
+            b = guard("bytes", bytes, m)
+            r = c.rf("Times").FromString(b)
+            got = [x.seconds * 10**6 + x.nanos // 1000 for x in r.r_ts]
+            if got != want:
+                fails.append(Failure("fold_instants", "fold|instants_on_the_wire|repeated", f"case={case!r}: reference reads {got}, the two passes are {want}"))
+            single = [r.ts.seconds * 10**6 + r.ts.nanos // 1000, r.m_ts[1].seconds * 10**6 + r.m_ts[1].nanos // 1000,
+                      r.m_ts[2].seconds * 10**6 + r.m_ts[2].nanos // 1000, r.o_ts.seconds * 10**6 + r.o_ts.nanos // 1000]
+            if single != [want[1], want[0], want[1], want[0]]:
+                fails.append(Failure("fold_instants", "fold|instants_on_the_wire|other_positions", f"case={case!r}: {single} vs {want}"))
+            m2 = guard("parse", T().parse, b)
+            back = [(x - EPOCH) // timedelta(microseconds=1) for x in m2.r_ts]
+            if back != want:
+                fails.append(Failure("fold_roundtrip", "fold|decode_roundtrip", f"case={case!r}: decoded {back} want {want}"))
+            d = guard("to_dict", m.to_dict)
+            m3 = guard("from_dict", T().from_dict, d)
+            back = [(x - EPOCH) // timedelta(microseconds=1) for x in m3.r_ts]
+            if back != want:
+                fails.append(Failure("fold_json", "fold|json_roundtrip", f"case={case!r}: {d.get('rTs')} -> {back} want {want}"))
+            if guard("len", len, m) != len(b):
+                fails.append(Failure("fold_len", "fold|len_vs_bytes", f"case={case!r}"))
+        except Exception as e:  # noqa: BLE001
+            from ..engine import Guarded
+
+            if not isinstance(e, Guarded):
+                raise
+            fails.append(Failure(f"raises_{e.where}", f"fold|raises_{e.where}_{type(e.exc).__name__}", str(e)))
+        return Eval(fails, nontrivial=True, labels=[f"fold_zone:{case['zone']}", f"fold_order:{case['order']}"])
+
+    return Target("dst_fold_pairs", fold_ev, cases=fold_cases, exhaustive=True,
+                  rule="for 4 DST zones x 3 years x 3 fractions x 2 orders: the two passes (fold=0 / fold=1) of one wall-clock time of the repeated hour, in one message: instants on the wire, decode, JSON, len")
+
+
 def targets(ctx):
     from google.protobuf import duration_pb2, timestamp_pb2
 
@@ -65,16 +137,22 @@ def targets(ctx):
         return v.seconds, v.nanos
 
     @collecting
-    def clauses(out, kind, us, off, pos):
+    def clauses(out, kind, us, off, pos, off_us=0):
         msg, ftmpl, wrap = POS[pos]
         k = "ts" if kind == "ts" else "dur"
         field = ftmpl.format(k=k)
         cls = c.bp(msg)
         if kind == "ts":
             py = us_to_datetime(us, off)
+            if off_us and off and py.utcoffset():
+                # an offset with a seconds / microseconds part (legal for Python's fixed-offset zones)
+                py = py.astimezone(timezone(timedelta(minutes=off, microseconds=off_us)))
             want = split_ts(us)
             ref = timestamp_pb2.Timestamp()
-            ref.FromDatetime(py)
+            if off_us:
+                ref.seconds, ref.nanos = want  # (the reference's FromDatetime itself drops sub-second offsets: spec only)
+            else:
+                ref.FromDatetime(py)
         else:
             py = timedelta(microseconds=us)
             want = split_dur(us)
@@ -160,7 +238,7 @@ def targets(ctx):
                 out.append(("json_roundtrip", f"{js!r} -> {v4!r} want {py!r}"))
 
         # input with a UTC offset other than Z (RFC 3339; accepted by proto3 JSON parsers): the same instant
-        if kind == "ts" and off and isinstance(js, str):
+        if kind == "ts" and off and not off_us and isinstance(js, str):
             text = py.isoformat()
             dd = {key: [text] if pos == "repeated" else ({"7": text} if pos == "map" else text)}
             m5 = guard("from_dict_offset", cls().from_dict, dd)
@@ -239,15 +317,26 @@ def targets(ctx):
             local = us + off * 60 * 10**6
             if not (TS_MIN_US <= local <= TS_MAX_US):
                 off = 0
-        found = clauses(kind, us, off, pos)
-        vc = vclass(kind, us, off)
+        off_us = case.get("off_us", 0) if (kind == "ts" and off) else 0
+        import decimal
+
+        prec = case.get("decimal_prec")
+        if prec:
+            # the ambient decimal context belongs to the host application
+            with decimal.localcontext() as dctx:
+                dctx.prec = prec
+                found = clauses(kind, us, off, pos, off_us)
+        else:
+            found = clauses(kind, us, off, pos, off_us)
+        vc = vclass(kind, us, off) + (["subsecond_offset"] if off_us else [])
         fails = [Failure(cl, f"{cl}|{kind}|{pos}|{'+'.join(vc[1:]) or 'plain'}", f"case={case!r} :: {d}") for cl, d in found]
-        return Eval(fails, nontrivial=len(vc) > 1, labels=[f"pos:{pos}", f"process_tz:{case.get('tzenv') or 'as_is'}"] + [f"vc:{x}" for x in vc])
+        return Eval(fails, nontrivial=len(vc) > 1, labels=[f"pos:{pos}", f"process_tz:{case.get('tzenv') or 'as_is'}", f"decimal_prec:{case.get('decimal_prec') or 'default'}"] + [f"vc:{x}" for x in vc])
 
     @st.composite
     def strat(draw):
         kind = draw(st.sampled_from(["ts", "dur"]))
         pos = draw(st.sampled_from(list(POS)))
+        prec = draw(st.sampled_from([None, None, None, None, 6, 12, 9]))
         tzenv = draw(st.sampled_from([None, None, None, "UTC0", "IST-5:30", "NST3:30NDT,M3.2.0,M11.1.0", "XYZ12", "CET-1CEST,M3.5.0,M10.5.0/3"]))
         if kind == "ts":
             us = draw(ts_us_strategy())
@@ -256,9 +345,15 @@ def targets(ctx):
                 # an instant whose LOCAL wall clock reads a special moment (the epoch, a day / year boundary)
                 local = draw(st.sampled_from([0, 0, 1, -1, 86_400_000_000, -86_400_000_000, 1_000_000, 946_684_800_000_000]))
                 us = local - off * 60 * 10**6
-            return {"kind": kind, "us": us, "off": off, "pos": pos, **({"tzenv": tzenv} if tzenv else {})}
-        return {"kind": kind, "us": draw(dur_us_strategy()), "pos": pos, **({"tzenv": tzenv} if tzenv else {})}
+            extra = {}
+            if off and draw(st.integers(0, 5)) == 0:
+                extra["off_us"] = draw(st.sampled_from([500_000, 1, -1, 30_000_000, 999_999, -29_500_000]))
+            if prec:
+                extra["decimal_prec"] = prec
+            return {"kind": kind, "us": us, "off": off, "pos": pos, **({"tzenv": tzenv} if tzenv else {}), **extra}
+        return {"kind": kind, "us": draw(dur_us_strategy()), "pos": pos, **({"tzenv": tzenv} if tzenv else {}), **({"decimal_prec": prec} if prec else {})}
 
     from . import _seq
 
-    return [Target("conversions", ev, poison=_poison_fn, strategy=strat(), quick=1500, thorough=20000, time_quick=70), _seq.target("C15")]
+    return [fold_target(c),
+            Target("conversions", ev, poison=_poison_fn, strategy=strat(), quick=1500, thorough=20000, time_quick=70), _seq.target("C15")]
